@@ -3,6 +3,7 @@ import Model.Cache
 import Proofs.TagParser
 import Proofs.Checker
 import Proofs.Cache
+import Proofs.TagIndex
 /-!
 # C03 — regex policy language: literal text, tagged segments, whole-string match
 
@@ -96,5 +97,17 @@ example : scan '<' '>' "a<b".toList = none ∧ scan '<' '>' "a>b<c".toList = non
 example : regexElem '<' '>' "a<b+>c<d+>e".toList (.str "abbcdde".toList) = .done (.ok true) := by decide +kernel
 example : regexElem '<' '>' "<abc>".toList (.str "abc\n".toList) = .next := by decide +kernel
 example : regexElem '<' '>' "a.c".toList (.str "abc".toList) = .next := by decide +kernel
+
+/-- the implementation's two-stage form — `get_tag_indices` walking the phrase with a position
+counter, then the slicing loop of `compile_regex` cutting `phrase[end:idx]` / `phrase[idx+1:end-1]`
+— computes exactly the scanner's decomposition and fails exactly when it does; every theorem above
+about `scan` is therefore a theorem about the index form -/
+theorem index_form_eq_scanner (s t : Char) (e : List Char) : scanByIndex s t e = scan s t e :=
+  scanByIndex_eq_scan s t e
+
+example : tagIndices '<' '>' "ab<c<d>>e<>".toList = some [(2, 8), (9, 11)] ∧
+    scanByIndex '<' '>' "ab<c<d>>e<>".toList =
+      some [Piece.lit "ab".toList, Piece.seg "c<d>".toList, Piece.lit "e".toList, Piece.seg [], Piece.lit []] := by
+  decide +kernel
 
 end Vakt.C03
